@@ -3,3 +3,5 @@ package harness
 import "testing"
 
 func TestWorker(t *testing.T) { WorkerMain(t) }
+
+func TestSubCmd(t *testing.T) { SubCmdMain(t) }
